@@ -175,3 +175,20 @@ func TestMinSkip(t *testing.T) {
 	}
 	fmt.Println("skips", tot, "of", n)
 }
+
+func TestLeak(t *testing.T) {
+	found := 0
+	rapid.Check(t, func(rt *rapid.T) {
+		c := genCase(rt)
+		if c.Kind != "program" || found > 0 {
+			return
+		}
+		restore, read := captureStdout()
+		r := execEgo(c.Src, "run", true, 0)
+		restore()
+		if s := read(); s != "" {
+			found++
+			fmt.Printf("LEAK %q\nstdout captured by ctx: %q\n%s\n", s, r.Stdout, c.Src)
+		}
+	})
+}
